@@ -10,20 +10,29 @@ HARNESSES = [("h_mempool", "rel")]
 ASSUMPTIONS = [
     "the configured maximum PopData size is at least the size of an empty PopData (10 bytes)",
     "the validity LEVEL memo of a block (low three status bits) may be raised by generatePopData (a VBK fork block that "
-    "was applied while the temporary block's context was compared becomes BLOCK_CAN_BE_APPLIED); everything else in "
-    "the three trees must be identical before and after the call",
+    "was applied while the temporary block's context was compared becomes BLOCK_CAN_BE_APPLIED; counted as "
+    "`validity-level-raised-by-generate`); lowering it, and every other difference in the three trees, is a violation",
+    "on a LOADED instance (save + reload) generatePopData advances finalization by one block (known finding "
+    "F10-generate-advances-finalization): there the before/after comparison tolerates exactly what finalization does "
+    "(F marks, deallocated blocks, dropped outdated tips) and does not read endorsement lists (deallocation leaves "
+    "dangling AltEndorsement pointers in VbkBlockAddon::_blockOfProofEndorsements, observed as heap-use-after-free)",
 ]
 META = {
-    "text": "Theorems (Coq): the running figure of CountingContext equals the estimateSize of the PopData built so far "
-            "as long as no count crosses a length-prefix boundary (counting_exact; the boundary case is exhibited), so "
-            "the generated PopData fits without relying on the assertion; an add-temp-block / execute / remove machine "
-            "with an inverse law returns to the state it started from (generate_pure). Tie to the code: after generated "
-            "histories under small and default limits the real generatePopData is checked directly: limits, stateless "
-            "check, nothing already on the active chain, all three trees identical before/after, and a next block "
-            "carrying exactly the result connects and is activated on the same instance.",
-    "note": "Trusted: Coq kernel, C++ harness and World interpreter. The stateful validity of the result is observed "
-            "on the implementation (direct oracle), the Coq part covers size accounting and purity of the abstract "
-            "machine.",
+    "text": "Theorems (Coq, closed under the global context): C12_counting_exact - the running figure of "
+            "CountingContext equals estimateSize of the PopData kept so far, for every candidate sequence and mutator "
+            "verdict; C12_generated_fits_partial - the kept PopData passes assertPopDataFits while fewer than 256 "
+            "payloads of each kind are kept (PARTIAL: the unbounded statement is false, C12_counting_prefix_refuted "
+            "exhibits the 256th ATV that fits exactly and makes the result one byte too large because canFit prices the "
+            "length prefix of the current count); C12_generate_pure - add temporary block / execute / un-execute in "
+            "reverse / remove returns to the initial state given the inverse laws. Tie to the code: direct oracle on "
+            "the real generatePopData after generated histories under small and default limits (counts, estimateSize "
+            "= encoded size <= limit, stateless checkPopData, nothing already on the active chain, all three trees "
+            "identical before/after) and the REAL next block carrying exactly the result: header, body and "
+            "setState succeed on the same instance, which then keeps going.",
+    "note": "Trusted: Coq kernel, C++ harness and World interpreter. Stateful validity of the result "
+            "(generated_applies) is observed on the implementation, not proved; sizes are abstract numbers in the "
+            "counting model (per-entity estimateSize = encoded length is C11's). Known finding F10 is exercised in "
+            "every run (save/reload steps) and printed as KNOWN-FINDING.",
     "technique": "Coq proof (size accounting, inverse law) + direct oracle on generated histories",
 }
 
@@ -50,7 +59,7 @@ def run(ctx):
         return
     nc = B.run_corpus(ctx, "C12", runner, "rel")
     if ctx.tier == "quick":
-        n_hist, n_steps, budget = 25, 60, 90
+        n_hist, n_steps, budget = 36, 60, 90
     else:
         n_hist, n_steps, budget = 400, 100, 1500
     tot, scripts = B.histories(ctx, "C12", rel, n_hist, n_steps, M.C12History, CFGS, budget, None, runner)
